@@ -187,6 +187,145 @@ def sweep(ctx: Ctx, cases: list[dict]) -> list[dict]:
     return out
 
 
+# ---------------------------------------------------------------------------------------------------------
+# the hypothesis `henc` of options_sound (the snapshot is an injective encoding of the key options' values),
+# checked on the real `select_options_affecting_cache` / `options_snapshot`
+
+def key_injectivity(ctx: Ctx) -> list[dict]:
+    """For every option of the key and every kind of value perturbation that fits its current value, the two
+    Options objects must have different snapshots.  Returns the pairs that collide."""
+    import copy
+    from mypy.options import Options, OPTIONS_AFFECTING_CACHE_NO_PLATFORM
+    base = Options()
+    collisions = []
+    for name in sorted(OPTIONS_AFFECTING_CACHE_NO_PLATFORM):
+        if name in ("enabled_error_codes", "disabled_error_codes"):
+            continue        # derived sets; their source lists are in the key, the derivation is C09-1's subject (table rows)
+        v = getattr(base, name)
+        alts: list[tuple[str, object, object]] = []
+        if isinstance(v, bool):
+            alts.append(("flip", v, not v))
+        elif isinstance(v, list):
+            alts += [("order", ["b_item", "a_item"], ["a_item", "b_item"]), ("multiplicity", ["a_item"], ["a_item", "a_item"]),
+                     ("list-vs-joined", ["a_item", "b_item"], ["a_item,b_item"]), ("empty-vs-one", [], ["a_item"])]
+        elif isinstance(v, tuple):
+            alts += [("component", tuple(v), tuple(v[:-1]) + ((v[-1] + 1) if isinstance(v[-1], int) else v[-1],))]
+        elif isinstance(v, str):
+            alts += [("text", v, v + "x"), ("case", "abc", "ABC")]
+        elif isinstance(v, int):
+            alts += [("value", v, v + 1)]
+        elif v is None:
+            alts += [("none-vs-false", None, False), ("none-vs-empty", None, ""), ("none-vs-value", None, "a_item")]
+        elif isinstance(v, dict):
+            alts += [("dict-entry", {}, {"k": "v"})]
+        for kind, x, y in alts:
+            a, b = copy.copy(base), copy.copy(base)
+            setattr(a, name, x)
+            setattr(b, name, y)
+            ctx.case(("key-injective", name, kind))
+            ctx.dist("key_injectivity_kind", kind)
+            try:
+                sa, sb = a.select_options_affecting_cache(), b.select_options_affecting_cache()
+            except Exception as e:
+                raise ToolFailure(f"select_options_affecting_cache failed for {name}: {e!r}")
+            if repr(sa) == repr(sb):
+                collisions.append({"option": name, "kind": kind, "a": repr(x), "b": repr(y)})
+    return collisions
+
+
+# ---------------------------------------------------------------------------------------------------------
+# configuration pairs that a single command-line flag cannot express: order / multiplicity of list values,
+# plugins, per-module sections (concrete, `pkg.*`, unstructured globs) that apply to a *dependency*
+
+PLUGIN_SRC = """from mypy.plugin import Plugin
+class P(Plugin):
+    def get_function_hook(self, fullname):
+        if fullname == "plugtarget.magic":
+            return self.hook
+        return None
+    def hook(self, ctx):
+        return ctx.api.named_generic_type("builtins.{typ}", [])
+def plugin(version):
+    return P
+"""
+PLUGTARGET = """import pkg.missing_sub
+import pkg.untyped_mod
+import dupmod
+def magic() -> object: ...
+reveal_type(magic())
+x: int = magic()
+y: int = dupmod.value
+"""
+PAIR_FILES = {"plug_a.py": PLUGIN_SRC.format(typ="int"), "plug_b.py": PLUGIN_SRC.format(typ="str"), "plugtarget.py": PLUGTARGET,
+              "d1/dupmod.py": "value: int = 1\n", "d2/dupmod.py": "value: str = ''\n"}
+CONFIG_PAIRS = [
+    ("plugins-order", "[mypy]\nplugins = plug_a.py, plug_b.py\nmypy_path = d1\n", "[mypy]\nplugins = plug_b.py, plug_a.py\nmypy_path = d1\n"),
+    ("plugins-added", "[mypy]\nplugins = plug_b.py\nmypy_path = d1\n", "[mypy]\nplugins = plug_a.py, plug_b.py\nmypy_path = d1\n"),
+    ("mypy-path-order", "[mypy]\nmypy_path = d1:d2\n", "[mypy]\nmypy_path = d2:d1\n"),
+    ("glob-section-ignore-missing", "[mypy]\nmypy_path = d1\n[mypy-*.missing_sub]\nignore_missing_imports = False\n",
+     "[mypy]\nmypy_path = d1\n[mypy-*.missing_sub]\nignore_missing_imports = True\n"),
+    ("star-section-ignore-missing", "[mypy]\nmypy_path = d1\n[mypy-pkg.*]\nignore_missing_imports = False\n",
+     "[mypy]\nmypy_path = d1\n[mypy-pkg.*]\nignore_missing_imports = True\n"),
+    ("concrete-section-ignore-missing", "[mypy]\nmypy_path = d1\n[mypy-pkg.missing_sub]\nignore_missing_imports = False\n",
+     "[mypy]\nmypy_path = d1\n[mypy-pkg.missing_sub]\nignore_missing_imports = True\n"),
+    ("glob-section-follow-imports", "[mypy]\nmypy_path = d1\n[mypy-*.untyped_mod]\nfollow_imports = normal\n",
+     "[mypy]\nmypy_path = d1\n[mypy-*.untyped_mod]\nfollow_imports = skip\n"),
+    ("glob-section-of-importer", "[mypy]\nmypy_path = d1\n[mypy-plug*]\ndisallow_untyped_defs = False\n",
+     "[mypy]\nmypy_path = d1\n[mypy-plug*]\nwarn_return_any = True\ndisallow_any_expr = True\n"),
+    ("always-true-order", "[mypy]\nmypy_path = d1\nalways_true = AA, BB\n", "[mypy]\nmypy_path = d1\nalways_true = BB, AA\n"),
+    ("section-order", "[mypy]\nmypy_path = d1\n[mypy-pkg.*]\nignore_errors = True\n[mypy-pkg.a]\nignore_errors = False\n",
+     "[mypy]\nmypy_path = d1\n[mypy-pkg.a]\nignore_errors = True\n[mypy-pkg.*]\nignore_errors = False\n"),
+]
+
+
+def config_pairs(ctx: Ctx) -> None:
+    base = os.path.join(ctx.tmp, "pairs")
+    root = os.path.join(base, "src")
+    os.makedirs(base, exist_ok=True)
+    shutil.copytree(WITNESS, root)
+    for rel, text in PAIR_FILES.items():
+        fp = os.path.join(root, rel)
+        os.makedirs(os.path.dirname(fp), exist_ok=True)
+        open(fp, "w").write(text)
+    targets = TARGETS + ["plugtarget.py"]
+
+    def runp(cache: str, ini: str, tag: str) -> dict:
+        cfg = os.path.join(root, f"cfg-{tag}.ini")
+        open(cfg, "w").write(ini)
+        r = B.run_mypy(root, cache, B.CONFIGS["sqlite-binary"] + ["--config-file", os.path.basename(cfg)], targets=targets, scratch=base)
+        if r.get("timeout") or r.get("status") not in (0, 1, 2):
+            raise ToolFailure(f"mypy failed for config pair {tag}: {r.get('status')} {r.get('stderr', '')[-600:]}")
+        return r
+
+    def one(item):
+        i, (name, a, b) = item
+        out = []
+        for direction, first, second in (("a-to-b", a, b), ("b-to-a", b, a)):
+            shared = os.path.join(base, f"c{i}-{direction}")
+            runp(shared, first, f"{i}-{direction}-1")
+            warm = runp(shared, second, f"{i}-{direction}-2")
+            cold = runp(os.path.join(base, f"c{i}-{direction}-cold"), second, f"{i}-{direction}-2")
+            coldfirst = runp(os.path.join(base, f"c{i}-{direction}-cold1"), first, f"{i}-{direction}-1")
+            out.append((name, direction, B.diff_outputs(B.canon_output(warm), B.canon_output(cold)),
+                        bool(B.diff_outputs(B.canon_output(coldfirst), B.canon_output(cold))), first, second))
+            for d in (shared, shared + "-cold", shared + "-cold1"):
+                shutil.rmtree(d, ignore_errors=True)
+        return out
+    with ThreadPoolExecutor(max_workers=10) as ex:
+        results = [x for part in ex.map(one, enumerate(CONFIG_PAIRS)) for x in part]
+    shutil.rmtree(base, ignore_errors=True)
+    for name, direction, diff, affects, first, second in results:
+        ctx.case(("config-pair", name, direction), nontrivial=affects)
+        ctx.count("traces_validated_against_impl")
+        ctx.dist("surroundings", "config-pair")
+        if diff and not B.only_once_note_diff(diff):
+            ctx.count("disagreements_checked")
+            ctx.report({"class": "option-change-yields-stale-result", "option": "config-pair:" + name},
+                       f"warm run after changing the configuration ({name}, {direction}) differs from a cold run with the new configuration: {diff[:2]}",
+                       {"witness": "harness/c09/witness + PAIR_FILES of harness/c09/run.py", "targets": targets, "config_first": first,
+                        "config_second": second, "direction": direction, "diff": diff})
+
+
 def main(ctx: Ctx) -> None:
     ctx.coverage["rule"] = ("a case = one command-line option toggled in one direction (A→B and B→A) on the witness project: cold(A), warm(B) on "
                             "A's cache, cold(B); non-trivial when cold(A) ≠ cold(B) on the witness (the option changes the diagnostics); distinct by option+value")
@@ -247,6 +386,15 @@ def main(ctx: Ctx) -> None:
         ctx.report({"class": "option-change-yields-stale-result", "option": c["dest"]},
                    f"warm run after toggling {' '.join(c['flags'])} ({direction}) differs from a cold run with the new options: {diff[:2]}",
                    {"witness": "harness/c09/witness", "targets": TARGETS, "base_args": c["base"], "toggle": c["flags"], "direction": direction, "diff": diff})
+    config_pairs(ctx)
+    collisions = key_injectivity(ctx)
+    ctx.coverage["key_injectivity_collisions"] = len(collisions)
+    if collisions and not ctx.violations:
+        ctx.violation("the options snapshot is not an injective encoding of the key options (hypothesis `henc` of options_sound): "
+                      + "; ".join(f"{c['option']} ({c['kind']}: {c['a']} vs {c['b']})" for c in collisions[:6])
+                      + "; the configuration pairs of this run showed no stale result",
+                      {"broken": "hypothesis henc of theorem options_sound (Props/C09.lean) vs Options.select_options_affecting_cache",
+                       "collisions": collisions}, found_input=False)
     if pred_breaks and not ctx.violations:
         ctx.violation("cache-key behaviour differs from the model (an option in the key did not invalidate, or an option outside it did); "
                       "no stale result found on the witness project",
